@@ -41,6 +41,7 @@ func c20cStart(t *testing.T, ids []string, replicas int) test.Cluster {
 		m.Config.Cluster.ReplicaN = replicas
 		m.Config.AntiEntropy.Interval = 0
 		m.Config.Metric.Diagnostics = false
+		m.Config.Translation.MapSize = 1 << 28 // the test helper's 140000 bytes overflow after a few thousand keys (the log is not bounds-checked against its map)
 		if err := ioutil.WriteFile(path.Join(m.Config.DataDir, ".id"), []byte(ids[i]), 0600); err != nil {
 			t.Fatal(err)
 		}
